@@ -7,6 +7,8 @@ use crate::types::{CommandResult, CommandLine, Command};
 
 pub fn run(sh: &mut Shell, cl: &CommandLine, cmd: &Command,
            capture: bool) -> CommandResult {
+    #[cfg(cicada_verif)]
+    use crate::verif::libc_shim as libc;
     let tokens = cmd.tokens.clone();
     let mut cr = CommandResult::new();
 
